@@ -199,6 +199,7 @@ struct Item
     char t;
     std::string s;
     long long i;
+    std::vector<std::string> inner; // kind 'j'
 };
 static std::ostream& operator<<(std::ostream& os, const Item& it)
 {
@@ -208,13 +209,17 @@ static std::ostream& operator<<(std::ostream& os, const Item& it)
         return os << it.s;
     if (it.t == 'h')
         return os << std::hex << it.i;
+    if (it.t == 'j')
+        return os << "[" << nitro::lang::join(it.inner, ",") << "]";
     return os << it.i;
 }
 static Item item_of(const J& j)
 {
-    Item it{ j["t"].str()[0], "", 0 };
+    Item it{ j["t"].str()[0], "", 0, {} };
     if (it.t == 's')
         it.s = j["v"].as_bytes();
+    else if (it.t == 'j')
+        it.inner = j["v"].as_bytes_list();
     else
         it.i = j["v"].num();
     return it;
@@ -370,6 +375,22 @@ static J run(const J& c)
             alts.push(J::bytes(nitro::lang::join(celems.cbegin(), celems.cend(), infix)));
             o.set("alts", alts);
 #endif
+        });
+    }
+    if (op == "joinitems")
+    {
+        // join over streamable elements that are not strings: integers, a type that leaves its stream in hexadecimal
+        // mode, a list type whose operator<< itself calls join
+        std::vector<Item> elems;
+        for (std::size_t k = 0; k < c["a1"].size(); k++)
+            elems.push_back(item_of(c["a1"][k]));
+        std::string infix = c["a2"].as_bytes();
+        return guarded([&](J& o) {
+            o.set("out", J::bytes(nitro::lang::join(elems.begin(), elems.end(), infix)));
+            std::list<Item> l(elems.begin(), elems.end());
+            J alts = J::arr();
+            alts.push(J::bytes(nitro::lang::join(l.begin(), l.end(), infix)));
+            o.set("alts", alts);
         });
     }
     if (op == "starts")
